@@ -143,7 +143,7 @@ func ruleEnsure(c *Ctx) {
 				return
 			}
 			f := call.Call.StaticCallee()
-			if f == nil || stdName(f) != "strconv.Atoi" {
+			if f == nil || !b.isIndexParser(f) {
 				return
 			}
 			n++
@@ -275,7 +275,7 @@ func ruleEnsure(c *Ctx) {
 					leaves(e)
 				}
 			case *ssa.Extract:
-				if call, ok := x.Tuple.(*ssa.Call); ok && call.Call.StaticCallee() != nil && stdName(call.Call.StaticCallee()) == "strconv.Atoi" && x.Index == 0 {
+				if call, ok := x.Tuple.(*ssa.Call); ok && call.Call.StaticCallee() != nil && b.isIndexParser(call.Call.StaticCallee()) && x.Index == 0 {
 					atois[call] = true
 					return
 				}
